@@ -345,7 +345,7 @@ pub fn universe(ctx: &Ctx, rng: &mut Rng, target: usize, for_c12: bool) -> Unive
 }
 
 pub fn run_c11(ctx: &Ctx) {
-    ctx.rule("universe U = deterministic core (every type rank, numeric neighbours of 2^31/2^53/2^63/2^64/10^20 in every representation, -0.0/0.0, equal-length bignums, binaries vs bit-strings vs strings, nil/List([])/proper/improper lists (also spelled as cons cells), funs, identifiers in both forms, compounds of those) + seeded random terms; evaluations = pair comparisons + triple checks; distinct = distinct unordered (variant,variant) leaf-pairs compared");
+    ctx.rule("universe U = deterministic core (every type rank, numeric neighbours of 2^31/2^53/2^63/2^64/10^20 in every representation, -0.0/0.0, equal-length bignums, binaries vs bit-strings vs strings, nil/List([])/proper/improper lists (also spelled as cons cells), funs, identifiers in both forms, compounds of those) + seeded random terms; every pair also through partial_cmp and the comparison operators of both term types; evaluations = pair comparisons + triple checks; distinct = distinct unordered (variant,variant) leaf-pairs compared");
     ctx.assume("well-formed terms: finite floats, minimal big-integer digits, zero padding bits");
     let mut rng = Rng::derive(ctx.seed, 11, 1);
     let target = ctx.pick(260usize, 900usize);
@@ -397,6 +397,39 @@ pub fn run_c11(ctx: &Ctx) {
                         "a == b but their hashes differ",
                         json!({"a": show(a), "b": show(b)}),
                     );
+                }
+            }
+            // the other doors to the same order: partial_cmp and the operators, for both term types
+            {
+                let want = match ab { -1 => std::cmp::Ordering::Less, 0 => std::cmp::Ordering::Equal, _ => std::cmp::Ordering::Greater };
+                let (ba_, bb_) = (BorrowedTerm::from(a), BorrowedTerm::from(b));
+                let doors = guarded(|| {
+                    let mut bad: Vec<&'static str> = Vec::new();
+                    if a.partial_cmp(b) != Some(want) {
+                        bad.push("owned partial_cmp");
+                    }
+                    if (a < b) != (want == std::cmp::Ordering::Less) || (a <= b) != (want != std::cmp::Ordering::Greater) || (a > b) != (want == std::cmp::Ordering::Greater) || (a >= b) != (want != std::cmp::Ordering::Less) {
+                        bad.push("owned operators");
+                    }
+                    if ba_.partial_cmp(&bb_) != Some(want) {
+                        bad.push("borrowed partial_cmp");
+                    }
+                    if (ba_ < bb_) != (want == std::cmp::Ordering::Less) || (ba_ >= bb_) != (want != std::cmp::Ordering::Less) {
+                        bad.push("borrowed operators");
+                    }
+                    bad
+                });
+                match doors {
+                    Ok(bad) => {
+                        for which in bad {
+                            ctx.viol(
+                                &format!("C11:partial-order-differs-from-cmp:{}:{}", which.replace(' ', "-"), pair_sig(a, b)),
+                                "partial_cmp / the comparison operators give another answer than cmp for the same pair",
+                                json!({"a": show(a), "b": show(b), "cmp": ab, "door": which}),
+                            );
+                        }
+                    }
+                    Err(p) => ctx.viol("C11:panic:partial_cmp", "partial_cmp or an operator panicked", json!({"a": show(a), "b": show(b), "panic": p})),
                 }
             }
             if i <= j {
@@ -522,7 +555,7 @@ pub fn run_c11(ctx: &Ctx) {
 }
 
 pub fn run_c12(ctx: &Ctx) {
-    ctx.rule("all ordered pairs of the universe U (C11's core extended with neighbours of representation boundaries, floats adjacent to integers, prefixes/extensions of bit-strings, nested containers and maps) compared by the library and by an independent implementation of Erlang's term order; plus all pairs of all bit-strings of up to 9 (quick) / 11 (thorough) bits, owned and zero-copy; distinct = distinct unordered (variant,variant) leaf-pairs");
+    ctx.rule("all ordered pairs of the universe U (C11's core extended with neighbours of representation boundaries, floats adjacent to integers, prefixes/extensions of bit-strings, nested containers and maps) compared by the library (cmp, partial_cmp, the operators; both term types) and by an independent implementation of Erlang's term order; plus all pairs of all bit-strings of up to 9 (quick) / 11 (thorough) bits, owned and zero-copy; distinct = distinct unordered (variant,variant) leaf-pairs");
     ctx.assume("order among identifiers/funs of the same kind is only checked for equality; maps with mixed integer/float keys are excluded (not representable in the library's map)");
     let mut rng = Rng::derive(ctx.seed, 12, 1);
     let target = ctx.pick(300usize, 1200usize);
@@ -552,6 +585,19 @@ pub fn run_c12(ctx: &Ctx) {
                 }
             };
             ctx.class(&pair_sig(a, b));
+            // the order is one order, whichever door it is asked through (sort() and the operators go through partial_cmp)
+            match guarded(|| (a.partial_cmp(b), a < b, a > b, BorrowedTerm::from(a).partial_cmp(&BorrowedTerm::from(b)))) {
+                Ok((p, lt, gt, bp)) => {
+                    if p != Some(got) || lt != (got == Ordering::Less) || gt != (got == Ordering::Greater) || bp != Some(got) {
+                        ctx.viol(
+                            &format!("C12:partial_cmp-or-operators-differ-from-cmp:{}", pair_sig(a, b)),
+                            "partial_cmp / the comparison operators order the pair differently from cmp (and so from Erlang's order or from each other)",
+                            json!({"a": show(a), "b": show(b), "cmp": ord_code(got), "partial_cmp": p.map(ord_code), "lt": lt, "gt": gt, "borrowed_partial_cmp": bp.map(ord_code), "erlang": ord_code(expect)}),
+                        );
+                    }
+                }
+                Err(p) => ctx.viol("C12:panic:partial_cmp", "partial_cmp panicked", json!({"a": show(a), "b": show(b), "panic": p})),
+            }
             // among identifiers / funs only equality is specified
             let unordered = contains_unordered_kind(va) || contains_unordered_kind(vb);
             let ok = if unordered {
